@@ -863,4 +863,87 @@ theorem query_colour_idempotent (k : Kind) (iw : List Nat) (s : Stream) (c : Nat
 example := query_colour_idempotent (.kymo 2) [0, 1, 2, 2] ⟨0, [5, 6, 7, 8]⟩ 1 ObjState.fresh ⟨[2, 1], [13, 8]⟩
   (by decide) (by decide)
 
+/-! ## 9. Deepening round D: the first-line repair on regular info waves
+
+`regWave lead k d P n`: `lead` discarded samples, then `n` lines of `P` pixels of `k` samples (`k − 1` × use, then the
+boundary), each line followed by `d` discarded samples.  Which lines a kymograph keeps when a photon stream starts
+inside its first line was compared with the model only; on this family it is now a theorem. -/
+
+/-- `seek_timestamp_next_line` (pixel starts = followers of all boundaries but the last, distances, threshold
+    `(max + min) / 2`, first distance above it) lands on the first sample of the SECOND line — for every lead-in,
+    `k ≥ 1` samples per pixel, `d ≥ 1` dead samples, `P ≥ 2` pixels per line and `n ≥ 2` lines. -/
+theorem seek_regular_second_line (lead k d P n : Nat) (hk : 1 ≤ k) (hd : 1 ≤ d) :
+    seekNextLine (regWave lead k d (P + 2) (n + 2)) = some (lead + (P + 2) * k + d) :=
+  seek_regular lead k d P n hk hd
+
+example : seekNextLine (regWave 1 2 1 2 2) = some 6 := by decide
+example := seek_regular_second_line 1 2 1 0 0 (by decide) (by decide)
+
+/-- Each hypothesis is needed (kernel-checked): with ONE pixel per line the code lands on the THIRD line; without
+    dead time between the lines it lands on the third pixel (inside the first line); with a single line it fails
+    (`ValueError`: `np.max` of an empty array). -/
+example : seekNextLine (regWave 0 1 1 1 3) = some 4 ∧ (0 + 1 * 1 + 1 = 2) := by decide
+example : seekNextLine (regWave 0 2 0 3 2) = some 4 ∧ (0 + 3 * 2 + 0 = 6) := by decide
+example : seekNextLine (regWave 0 2 1 2 1) = none := by decide
+
+/-- First `get_image` of a colour whose photon stream starts inside the first line (any number of pixels per
+    line `Pp` in the metadata): the object's start moves to the second line, the cache dict is replaced, and -
+    when no stream starts later than that - the object is settled: by `runSeq_settled` every later answer is the
+    from-scratch answer for that start. -/
+theorem first_line_repair (Pp lead k d P n : Nat) (hk : 1 ≤ k) (hd : 1 ≤ d) (ss : Streams) (c : Nat)
+    (hlate : startsLate (regWave lead k d (P + 2) (n + 2)).length 0 (streamOf ss c) = true)
+    (hin : ∀ c', 0 ≤ (streamOf ss c').lead + ((lead + (P + 2) * k + d : Nat) : Int)) (qs : List Nat) :
+    (queryColour (.kymo Pp) (regWave lead k d (P + 2) (n + 2)) (streamOf ss c) c ObjState.fresh).1
+      = ⟨lead + (P + 2) * k + d, 1, []⟩ ∧
+    runSeq (.kymo Pp) (regWave lead k d (P + 2) (n + 2)) ss ⟨lead + (P + 2) * k + d, 1, []⟩ qs
+      = qs.map (pureAnswer (.kymo Pp) (regWave lead k d (P + 2) (n + 2)) ss (lead + (P + 2) * k + d)) := by
+  obtain ⟨h1, h2⟩ := first_line_repair_lemma Pp lead k d P n hk hd ss c hlate hin
+  exact ⟨h1, (runSeq_settled _ _ ss qs _ h2).1⟩
+
+example : startsLate (regWave 1 2 1 2 2).length 0 (streamOf [⟨0, []⟩, ⟨-2, [1, 2, 3, 4, 5, 6, 7, 8, 9]⟩] 1) = true := by
+  decide
+example : (queryColour (.kymo 2) (regWave 1 2 1 2 2) (streamOf [⟨0, []⟩, ⟨-2, [1, 2, 3, 4, 5, 6, 7, 8, 9]⟩] 1) 1
+    ObjState.fresh).1 = ⟨6, 1, []⟩ := by decide
+
+/-- What the repaired kymograph shows for a colour whose stream covers the whole info wave: the pixels of the
+    full reconstruction with the first line's `P` pixels removed, nothing else dropped or shifted. -/
+theorem fresh_after_repair (Pp lead k d P n : Nat) (hk : 1 ≤ k) (data : List Int)
+    (h : data.length = (regWave lead k d (P + 1) (n + 2)).length) :
+    freshImage (.kymo Pp) (regWave lead k d (P + 1) (n + 2)) ⟨0, data⟩ (lead + (P + 1) * k + d)
+      = imageOfPixels (.kymo Pp) (.ok ((pixelsSpec data (regWave lead k d (P + 1) (n + 2))).drop (P + 1))) := by
+  have haux := pixels_after_first_line_aux lead k d P (n + 1) hk data h
+  have hlenA : (List.replicate lead 0 ++ regLine k (P + 1) ++ List.replicate d 0).length = lead + (P + 1) * k + d := by
+    simp [regLine_length k hk]; omega
+  have hdrop : (regWave lead k d (P + 1) (n + 2)).drop (lead + (P + 1) * k + d) = regLines k d (P + 1) (n + 1) := by
+    rw [regWave_split, ← hlenA, List.drop_left' rfl]
+  have hle : lead + (P + 1) * k + d ≤ (regWave lead k d (P + 1) (n + 2)).length := by
+    rw [regWave_split, List.length_append, hlenA]; omega
+  clear hlenA
+  generalize hiw : regWave lead k d (P + 1) (n + 2) = iw at *
+  generalize hs : lead + (P + 1) * k + d = s' at *
+  unfold freshImage channelPixelsAt chanSlice
+  have hrel : ((0 : Int) + (s' : Int)) ≥ 0 := by omega
+  simp only [ge_iff_le] at hrel
+  simp only [ge_iff_le, hrel, if_true, true_or]
+  have htn : ((0 : Int) + (s' : Int)).toNat = s' := by omega
+  rw [htn]
+  have htake : (data.drop s').take (iw.length - s') = data.drop s' := by
+    apply List.take_of_length_le; simp; omega
+  rw [htake]
+  have hlen : (data.drop s').length = (iw.drop s').length := by simp; omega
+  have hne : (data.drop s').length ≠ 0 := by
+    rw [hlen, hdrop]
+    intro hz
+    have := regLines_count_pos k d P n
+    rw [List.length_eq_zero_iff.mp hz] at this
+    simp at this
+  rw [full_channel _ _ hlen hne, reconstructSum_spec]
+  have hb : (iw.drop s').count 2 ≠ 0 := by rw [hdrop]; exact regLines_count_pos k d P n
+  simp only [hlen, ne_eq, not_true_eq_false, if_false, hb]
+  rw [haux]
+
+example : freshImage (.kymo 2) (regWave 1 2 1 2 2) ⟨0, [9, 1, 2, 3, 4, 9, 5, 6, 7, 8, 9]⟩ 6 = .ok ⟨[2, 1], [11, 15]⟩ := by
+  decide
+example := fresh_after_repair 2 1 2 1 1 0 (by decide) [9, 1, 2, 3, 4, 9, 5, 6, 7, 8, 9] rfl
+
 end Verif.C02
